@@ -330,6 +330,7 @@ func runC05(c *Ctx) {
 		}
 	}
 	c05ZeroGuard(c, eb)
+	c.shared("R11", "C06/R1", "unary minus yields the negation of its operand for every spelling: the prefix parselet takes its operand from the expression parser on every path (it never folds sign and digits into one literal token)", keyHas("rbp lang.unary", "rbp-bypass"), func(s *Ctx) { prattParselets(s, m) })
 	c.shared("R10", "C09/R3", "an operand that went through copyValue (argument, container element, assigned scalar) keeps its kind and payload: the operator tables are only right if a copied regex is still a regex, a copied null still null", keyHas("copy Value"), c09R3)
 	c05ShortCircuit(c, eb)
 	c05Concat(c, eb)
